@@ -63,8 +63,8 @@ CONFIG = dict(
                    'false of the current code in two input regions decided by the extracted region_of (tags [chained:no-provider-requires-entity], '
                    '[chained:item-provides-two-ambiguous-entities]: known findings C10-K1/K2), C10_chained_not_farther_refuted in a third one decided by the extracted shallow_secondb inside the remaining chained regions '
                    '(tag [chained:second-provider-not-farther-from-roots]: the BreadthSort rank picks the wrong end of the chain, "topological sort failure" for an acyclic set, random on ties: known finding C10-K3); '
-                   'round 3: C10_chained_two_feeders_refuted in a fourth one decided by the extracted two_feeders_b (tag [chained:refiner-fed-by-two-consumers]: the refiner transitively requires TWO consumers of its entity, FindCycle keeps one of them in front of it: '
-                   '"topological sort failure" although order_ok accepts an order; judged only there), and C10_name_collision_lost_item_refuted OUTSIDE the domain, decided by the extracted collision_only_b (tag [generated-node-name-equals-item-name]: X, X and an item literally named X_1 share a graph node, Initialize succeeds and an item is lost; only that is judged there); '
+                   'round 3: C10_chained_two_feeders_refuted in a fourth one decided by the extracted two_feeders_b (tag [chained:refiner-fed-by-two-consumers], known finding C10-K4: the refiner transitively requires TWO consumers of its entity, FindCycle keeps one of them in front of it: '
+                   '"topological sort failure" although order_ok accepts an order; judged only there), and C10_name_collision_lost_item_refuted OUTSIDE the domain, decided by the extracted collision_only_b (tag [generated-node-name-equals-item-name], known finding C10-K5: X, X and an item literally named X_1 share a graph node, Initialize succeeds and an item is lost; only that is judged there); '
                    'every other region, all leaf subsets, all API call sequences (also with several Initialize calls, failing ones included) and all one-provider sets are clean. Not judged (counted as resolve_err_sort_chained_suffix_order_exists): a chained "topological sort failure" for a set '
                    'that has no strict order but an order with the BlobCache exception (a consumer may precede a later provider that depends on it). Modelled, not verified: the Go code (tie = replay); '
                    'fuel of BreadthSort/Toposort in the chained case is not proved sufficient (an out-of-fuel model outcome is reported as a mismatch; the deploy fuel is: C10_deploy_total).',
